@@ -361,7 +361,7 @@ PROPS = {
     "C15": {
         "title": "Owner-only upgrades, one migration per upgrade, all-or-nothing Upgrader",
         "policy": {"guards": ["role_auth", "upgrade_auth", "migrate_auth", "window", "version_differs", "version_matches_after", "migrate_typed", "no_migrate"],
-                   "fields": ["version", "data"], "events": ["upgraded"], "rets": []},
+                   "fields": ["version", "data", "aux"], "events": ["upgraded"], "rets": []},
         "jobs": [
             {"kind": "graph", "spec": "MC_C15", "cfg": "MC_C15_%s" % t, "module": "Upgrade", "evkinds": ["upgraded", "ownership_transferred"],
              "need": ["Upgrade/ok", "Upgrade/role_auth", "Migrate/ok", "Migrate/role_auth", "UpgraderUpgrade/ok",
@@ -488,7 +488,7 @@ PROPS = {
     "C06": {
         "title": "Admin operations need the current role holder's authorisation",
         "policy": {"guards": ["role_auth", "operator_auth", "collector_auth", "upgrade_auth", "migrate_auth"],
-                   "fields": ["owner", "operator", "collector"],
+                   "fields": ["owner", "operator", "collector", "aux"],
                    "events": ["ownership_transferred", "operatorship_transferred"], "rets": []},
         "jobs": [
             {"kind": "graph", "spec": "MC_C06_gateway", "module": "Gateway", "evkinds": GW_EVENTS,
@@ -517,7 +517,9 @@ PROPS = {
     },
     "C07": {
         "title": "No spending, burning, sending or consuming for an address without its auth",
-        "policy": {"guards": ["named_auth", "gas_auth"], "fields": [], "events": [], "rets": []},
+        # a message is consumed only FOR the address that authorised the call: a validate_message that returns false
+        # (someone else's message) must leave the approval where it was
+        "policy": {"guards": ["named_auth", "gas_auth"], "fields": [], "act_fields": {"ValidateMessage": ["status"]}, "events": [], "rets": []},
         "jobs": [
             {"kind": "graph", "spec": "MC_C07_token", "module": "Token", "evkinds": TOKEN_EVENTS,
              "need": ["%s/%s" % (n, o) for n in ["Approve", "Transfer", "TransferFrom", "Burn", "BurnFrom", "MintFrom"] for o in ["ok", "named_auth"]]},
